@@ -150,7 +150,8 @@ def rand_body(rng, maxlen=300):
         b = (b'\x08\x00\x00\x00\x00\x00\x00\xce' * (n // 8 + 1))[:n]
     else:
         b = bytes(rng.getrandbits(8) for _ in range(n))
-    return body.ContentBody(b)
+    c = rng.random()          # the caller's buffer may be any bytes-like object, also a mutable one
+    return body.ContentBody(bytearray(b) if c < 0.12 else memoryview(b) if c < 0.2 else b)
 
 
 def rand_frame(rng):
